@@ -36,7 +36,12 @@ def run(chk):
     n = 240 if thorough else 60
     for k in range(n):
         cfg = W.random_config(rng, {"raw_mode": 1} if k % 10 == 9 else None)
-        if k % 10 in (4, 8):
+        if k % 10 == 6:
+            # one direction is black for 15-40 s (< 60 s) while packets are offered there and given up; then a clean path
+            d = "up" if (k // 10) % 2 == 0 else "down"
+            cfg = W.random_config(rng, {"raw_mode": 0, "blackout": {"dir": d, "n": rng.choice([2, 4, 5, 6, 7, 9]), "gap": 5500 if d == "up" else 3000}})
+            jobs.append((chk.seed * 2000 + k, cfg, {}, None, 0, False, "blackout"))
+        elif k % 10 in (4, 8):
             # clean path for 100 s with traffic in one direction only / none: the give-up timers (60 s on both sides) must not fire
             cfg = W.random_config(rng, {"raw_mode": 1 if k % 20 < 10 else 0})
             jobs.append((chk.seed * 2000 + k, cfg, {}, None, 2, False, ["uponly", "downonly", "idle"][(k // 10 + k) % 3]))
@@ -64,6 +69,24 @@ def run(chk):
         got_s = [f for _, f in r["tunw_s"]]
         got_c = [f for _, f in r["tunw_c"]]
         delivered += len(got_s) + len(got_c)
+        if r["scenario"] == "blackout":
+            if r["client_ret"] is not None:
+                chk.violation("C02 fails on the implementation: the client gave up (%s) although only one direction was bad, for %d ms (< 60 s) (%s)" % (r["client_ret"], r.get("blackout_ms", 0), r["cfg"]), r["log"], key="c02:exit")
+                bad += 1
+                continue
+            d = r["cfg"]["blackout"]["dir"]
+            late, got = (r.get("late_c", []), [f for _, f in r["tunw_s"]]) if d == "up" else (r.get("late_s", []), [f for _, f in r["tunw_c"]])
+            hit = [f in got for _, f in late]
+            if not all(hit):
+                missing = [i for i, h in enumerate(hit) if not h]
+                # the 3-bit sequence number with its "current and 3 back" window: after 4..7 packets were given up in a row the receiver takes the next
+                # 1..4 NEW packets for recent duplicates and drops them for good (recorded finding); anything else is a new violation
+                prefix_only = missing == list(range(len(missing))) and len(missing) <= 4
+                chk.violation("C02 fails on the implementation: after %d ms in which every %sstream datagram was lost (%d packets given up), on a clean path again, %d of the next 6 packets offered (%s) were never delivered; the others were (configuration %s, negotiated %s)"
+                              % (r.get("blackout_ms", 0), d, r["cfg"]["blackout"]["n"], len(missing), "the first %d" % len(missing) if prefix_only else "numbers %s" % missing, r["cfg"], r["negotiated"]),
+                              r["log"], key="c02:seqno-window" if prefix_only else "c02:recovery")
+                bad += 1
+            continue
         if r["scenario"] != "recovery":
             if r["client_ret"] is not None:
                 chk.violation("C02 fails on the implementation: on a path that delivers every datagram intact and promptly the client left its tunnel loop (%s) after %d s (scenario %s: traffic in one direction only / idle; configuration %s, negotiated %s)"
